@@ -184,6 +184,10 @@ func (s *Sim) checkTx(b *blockObs, i int, tx []byte, r abci.ResponseDeliverTx, b
 	isProof := rec.Step.Kind == "proof"
 	if changed {
 		fd := t.delta(feeAddr)
+		if rec.Step.Kind == "gov_dao" && rec.Step.Action == govTypes.DAOTransferString && rec.Step.ToMod == authTypes.FeeCollectorName {
+			// the message itself pays the fee collector: what left the DAO is not part of the fee
+			fd = fd.Add(t.delta(ModuleAddr(govTypes.DAOAccountName)))
+		}
 		if !isProof && !fd.Equal(sdk.NewInt(fee)) {
 			s.violate("C15", "fee-collector-delta", rec.Step.Kind, fmt.Sprintf("height %d: tx id %d (%s, code %d) declared fee %d, fee collector changed by %s", t.h, rec.Step.ID, rec.Step.Kind, r.Code, fee, fd))
 		}
